@@ -137,7 +137,7 @@ def run(tier, seed):
                 else:
                     srv["challenge_faults"] = f
                 cplans.append({"id": "len-%s-%d" % (target[:5], j), "cfg": base_cfg, "srv": srv})
-        ctrace, cblobs, cdecoded, cdec = conn.run_plans(wd, cplans, "c07tls")
+        ctrace, cblobs, cdecoded, cdec = conn.run_plans(wd, cplans, "c07tls", v=v, key="nla:cssp_connect:abort")
         tls_out = {}
         for l in open(ctrace):
             if '"api":"connect"' in l:
